@@ -10,8 +10,12 @@ import sys, os
 sys.path.insert(0, "tools")
 import vlib
 with vlib.Lock():
-    rc, out = vlib.build_driver()
-    if rc: print(out); sys.exit(1)
+    import glob
+    for f in sorted(glob.glob(os.path.join(vlib.OCAML, "*_driver.ml"))):
+        name = os.path.basename(f)[:-len("_driver.ml")]
+        if name.startswith("_"): continue
+        rc, out = vlib.build_driver(name)
+        if rc: print(out); sys.exit(1)
     rc, out = vlib.build_harness()
     if rc: print(out); sys.exit(1)
 print("setup ok")
